@@ -63,6 +63,11 @@ CHECKS.update(
     C10=dict(text=SC + "A on a new Solver, B again on the same Solver object, C on a fresh Solver afterwards: identical trials, status, solution and counters on every path; Params object unmodified.", note=L1NOTE + " Controller memory is per solve (created inside solve()); state inside compiled linear solvers outside.", ref="DESIGN.md §6 C10"),
 )
 
+CHECKS.update(
+    C17=dict(text="PARTIAL (wrapper contract only): symbolic execution of the real LUSolver / GMRESSolver / MINRESSolver / linear_solver dispatch over arbitrary behaviour of scipy.sparse.linalg.{splu,gmres,minres} (contract stubs): RuntimeError => LinearSolverError; info != 0 => LinearSolverError and never a vector; the library is invoked on the requested matrix (M^T when trans, 'T' flag for SuperLU), right-hand side and initial guess; GMRES early return only when the guess solves the requested system to 1e-8. n<=2 symbolic matrices, COO/CSR/CSC.", note="The first sentence of the property (small relative residual of SuperLU/GMRES/MINRES on nonsingular systems) is compiled library code and is NOT decided; Cholesky/MA57/MUMPS/SSIDS wrappers need packages that are not installed.", ref="DESIGN.md §6 C17"),
+    C06=dict(text="PARTIAL: the crash obligation (any exception other than the deliberate ones escaping pygradflow code on a feasible path is a solver counterexample, replayed on the real code) over the union of this suite's harnesses: K=2 loop with all six penalty policies, one real compute_step for 4 controllers x Newton methods under a symbolic fault schedule, first Newton step of the 4 real step solvers (exact-cancellation forking for the asymmetric one: one listed known finding), reformulation pipeline, equilibration, observers; the named internal asserts are executed as written on every path.", note="Exact real arithmetic: finiteness of returned x,y,d and overflow/domain errors of whole floating-point runs are NOT decided, nor the condition estimator's assertion (accuracy of compiled LU).", ref="DESIGN.md §6 C06"),
+)
+
 NOT_APPLICABLE = {
     "C03": "liveness/convergence of hundreds of floating-point Newton iterations with data-dependent trip count: no bounded symbolic encoding can decide it (DESIGN.md §7)",
 }
